@@ -72,8 +72,46 @@ def topMost (l : Stk) (n : Nat) : List OVal := l.drop (l.length - n)
 def call (l : Stk) (nargs : Nat) (nret : Int) (results : List OVal) : Stk :=
   l.take (l.length - nargs - 1) ++ adjust results nret
 
+/-- the value in the function slot of a call with `nargs` arguments on a stack `pre ++ [fn] ++ args`. -/
+def fnSlot (l : Stk) (nargs : Nat) : OVal := l.getD (l.length - nargs - 1) none
+
+/-- the arguments of such a call. -/
+def argsOf (l : Stk) (nargs : Nat) : List OVal := l.drop (l.length - nargs)
+
+/-- what the callee receives (manual §2.8, "call" event): the arguments — preceded by the called object itself when
+    it is not a function and the call goes through its `__call` handler: `h(func, ...)`. -/
+def calleeArgs (l : Stk) (nargs : Nat) (viaCall : Bool) : List OVal :=
+  (if viaCall then [fnSlot l nargs] else []) ++ argsOf l nargs
+
 /-- a failed protected call leaves neither function, arguments nor partial results. -/
 def callFailed (l : Stk) (nargs : Nat) : Stk := l.take (l.length - nargs - 1)
+
+/-! histories: one stack operation of the public API (syntax), the list operation the Spec prescribes for it, and
+  the list after a history of them. -/
+
+inductive StackOp where
+  | push (v : OVal)
+  | pop (n : Nat)
+  | setTop (idx : Int)
+  | insert (v : OVal) (idx : Int)
+  | remove (idx : Int)
+  | replace (idx : Int) (v : OVal)
+deriving DecidableEq, Repr
+
+/-- the list operation the Spec prescribes; `none` where the Spec prescribes no list (Pop of more than
+    there is = error; Insert at an index that names no position; Replace through a pseudo-index, i.e. at or
+    below `LUA_REGISTRYINDEX` = -10000, which is no stack operation). -/
+def specOp (l : Stk) : StackOp → Option Stk
+  | .push v => some (push l v)
+  | .pop n => pop l n
+  | .setTop i => some (setTop l i)
+  | .insert v i => insert l v i
+  | .remove i => some (remove l i)
+  | .replace i v => if -10000 < i then some (replace l i v) else none
+
+def specRun (l : Stk) : List StackOp → Option Stk
+  | [] => some l
+  | o :: r => specOp l o >>= fun l' => specRun l' r
 
 /-! pseudo-indices (manual §3.3 "Pseudo-Indices", §3.4 "C Closures"): indices that are not stack positions.
   `LUA_REGISTRYINDEX` (-10000), `LUA_ENVIRONINDEX` (-10001: the environment of the running C function),
@@ -114,5 +152,13 @@ def pseudoSet (c : Cells) (which : Pseudo) (v : OVal) (isTable : Bool) : Option 
   | .environ => if isTable then some { c with environ := v } else none
   | .globals => if isTable then some { c with globals := v } else none
   | .upvalue n => if 1 ≤ n ∧ n ≤ c.upvalues.length then some { c with upvalues := c.upvalues.set (n - 1) v } else some c
+
+/-- what a read through ANY index gives (manual §3.2–§3.4): the cell for a pseudo-index, the list element for an index
+    inside the list, nil for every other index ("acceptable but invalid": 0, beyond the top, below the bottom, an
+    upvalue index beyond the function's upvalues). -/
+def getAny (l : Stk) (c : Cells) (idx : Int) : OVal :=
+  match pseudoOf idx with
+  | some which => pseudoGet c which
+  | none => get l idx
 
 end GLua.StackSpec
